@@ -4,6 +4,7 @@ import (
 	"go/constant"
 	"go/token"
 	"go/types"
+	"sort"
 	"strings"
 
 	"golang.org/x/tools/go/ssa"
@@ -1081,4 +1082,13 @@ func callerEdgesOfOutcome(c *core.Ctx, fn *ssa.Function, from *ssa.BasicBlock, s
 		}
 	}
 	return nil, nil, false
+}
+
+func sortedKeys(m map[string]bool) []string {
+	out := make([]string, 0, len(m))
+	for k := range m {
+		out = append(out, k)
+	}
+	sort.Strings(out)
+	return out
 }
